@@ -437,7 +437,13 @@ CHANS = ['#c', '#C', '#d', '&e', 'c', '#c,d', '#']
 CCAPS = ['op', 'foo', 'voice', '-op', ' op', 'owner', 'x y', '', 'OP', '-foo', 'halfop',
          '#d,op', '#d,x', '#c,#d,op', '-#d,op', '#D,OP', '#d,-op', '#c,op', '#C,Voice', '&e,op', '#d,op #d,voice']   # channel-qualified: another channel's capability
 MASKS = ['anon!a@host.anon', 'plain!p@host.plain', 'adm!m@host.adm', 'boss!o@host.owner', '*!*@host.anon', 'x!y@z', '*!*@*', 'a!b@c',
-         'new!n@host.new', 'nomask', 'all', 'anon', 'plain', '$a:x', '#x!y@z', 'N!e\nw@h', 'a!b@c\n', 'nl!x@host.plain\n']
+         'new!n@host.new', 'nomask', 'all', 'anon', 'plain', '$a:x', '#x!y@z', 'N!e\nw@h', 'a!b@c\n', 'nl!x@host.plain\n',
+         # whitespace / line breaks inside the nick, ident and host parts (isUserHostmask must refuse all but one trailing \\n);
+         # the first ones are complete users.conf payloads: "<nick>!<ident>LF  capability owner LF  hostmask <nick>!<ident>@<host>"
+         'evil!x\n  capability owner\n  hostmask e!y@h', 'evil!x\r  capability owner\r  hostmask e!y@h',
+         'evil!x\n  capability admin\n  hostmask e!y@host.anon', 'ev\n  capability owner\n  hostmask il!x@h',
+         'evil!x@h\n  capability owner\n  hostmask e!y@h2', 'evil!x y@h', 'ev il!x@h', 'evil!x@h ost', 'evil!x\ty@h', ' evil!x@h',
+         'evil!x\x0cy@h', 'evil!x\u2028y@h', 'evil!x@h\r', 'evil!x\n@h', 'e!x\n  ignore True\n  hostmask e!y@h']
 BOOLS = ['True', 'False', 'on', 'off', ' 1 ', 'maybe', 'ENABLE', '0']
 
 
@@ -551,10 +557,17 @@ INIT_NOPW = {'accounts': INIT0['accounts'] + [['root', None, 'root!r@host.root',
 INIT_EMPTYPW = {'accounts': INIT0['accounts'] + [['root', '', 'root!r@host.root', ['owner']]]}
 W_F44 = {'init': INIT_NOPW, 'steps': [{'op': 'reload'}, cmdstep('anon', 'user hostmask add', ['root'])]}
 W_F44B = {'init': INIT_EMPTYPW, 'steps': [cmdstep('anon', 'user hostmask add', ['root'])]}
+HM_PAYLOAD = 'evil!x\n  capability owner\n  hostmask e!y@h'
+W_HMNL = {'init': INIT0, 'steps': [cmdstep('plain', 'user hostmask add', ['plain', HM_PAYLOAD]), {'op': 'reload'},
+                                   cmdstep('plain', 'user hostmask add', [HM_PAYLOAD.replace('\n', '\r')]), {'op': 'reload'},
+                                   cmdstep('anon', 'user register', ['zed', 'pw']), cmdstep('anon', 'user hostmask add', ['zed', 'ev\n  capability owner\n  hostmask il!x@h', 'pw']),
+                                   cmdstep('anon', 'user hostmask add', ['zed', 'evil!x@h\n  capability owner\n  hostmask e!y@h2']), cmdstep('anon', 'user hostmask add', ['zed', 'evil!x y@h']),
+                                   cmdstep('adm', 'admin ignore add', [HM_PAYLOAD]), cmdstep('adm', 'admin ignore add', ['evil!x y@h']),
+                                   cmdstep('anon', 'user hostmask remove', ['zed', HM_PAYLOAD]), {'op': 'reload'}]}
 W_XCHAN = {'init': INIT0, 'steps': [cmdstep('adm', 'channel capability add', ['#c', 'plain', '#d,op'])]}
 INIT_OVER = dict(INIT0, extra={'plain': ['q!q@over.lap'], 'boss': ['*!*@over.lap']})
 CORPUS = [
-    W_F44, W_F44B, W_F1, W_F43, W_XCHAN, W_LINESEP,
+    W_F44, W_F44B, W_F1, W_F43, W_XCHAN, W_LINESEP, W_HMNL,
     {'init': INIT_NOPW, 'steps': [cmdstep('anon', 'user hostmask add', ['root']), cmdstep('anon', 'user changename', ['root', 'mine']), {'op': 'reload'},
                                   cmdstep('anon', 'user changename', ['root', 'mine']), cmdstep('plain', 'user unregister', ['mine', '']),
                                   cmdstep('plain', 'user hostmask remove', ['mine', 'all']), cmdstep('plain', 'user identify', ['mine', ''])]},
